@@ -55,3 +55,14 @@ Theorem C18_unusable_reinit_writes_nothing :
   | RPanic => False
   end.
 Proof. exact unusable_reinit_writes_nothing. Qed.
+
+(* a reinit operation file - carried out or refused - touches no round but the one it names: no other
+   round gains or loses an instance or a key share (repaired by a9d7a75: a refused reinit file naming
+   another round than its embedded operations left that round's key share in the database) *)
+Require Import Air.Reinit Air.ReinitProofs.
+Theorem C18_reinit_operation_touches_only_its_round :
+  forall outer m ops r, r <> outer ->
+  mem r (rm_inst (fst (handle_reinit outer m ops))) = mem r (rm_inst m) /\
+  mem r (rm_shares (fst (handle_reinit outer m ops))) = mem r (rm_shares m).
+Proof. exact reinit_touches_only_its_round. Qed.
+Print Assumptions C18_reinit_operation_touches_only_its_round.
